@@ -1,6 +1,7 @@
 #!/usr/bin/env python3
 """benigncheck.py PATCHDIR : apply a behaviour-preserving patch to a scratch copy of /repo and run every quick check
-on it. Any VIOLATION is a false alarm of the machinery. Prints the rules that fired."""
+on it (env PROPS=C01,C17 restricts the run to those checks). Any VIOLATION is a false alarm of the machinery. Prints
+the rules that fired."""
 import sys, os, json, subprocess, shutil, tempfile
 ENV = dict(os.environ, GOFLAGS='-mod=mod', GOPROXY='off', GOSUMDB='off', GOTOOLCHAIN='local')
 src = os.path.abspath(sys.argv[1])
@@ -14,6 +15,8 @@ try:
     if r.returncode != 0:
         print(src, 'BUILD FAILED', r.stderr[-500:]); sys.exit(2)
     props = subprocess.run([os.environ.get('CRVERIF_BIN', '/verif/bin/crverif'), '-list'], capture_output=True, text=True).stdout.split()
+    if os.environ.get('PROPS'):
+        props = [p for p in props if p in os.environ['PROPS'].split(',')]  # targeted run: only these checks
     fired = {}
     for p in props:
         ev = tempfile.mkdtemp(prefix='ev-', dir='/tmp')
